@@ -70,6 +70,11 @@ func contentOK(toks []model.Tok) (ok bool, gap bool) {
 	return
 }
 
+// editAlphabet: what the edit neighbourhood inserts / substitutes: the blind
+// alphabet plus lexically complete tokens with invalid content.
+var editAlphabet = append(append([]model.Tok{}, blindAlphabet...),
+	model.T(model.NUM, "-"), model.T(model.LIT, "`1 2`"), model.T(model.QID, `"\q"`), model.T(model.NUM, "-1"))
+
 var usabilityDocs = univ.Js(`null`, `{"a":{"a":1,"b":[1,2]},"b":[{"a":1},{"a":2}]}`, `[1,[2],{"a":3}]`, `"a"`, `1`)
 
 func pow(b, e int) int {
@@ -405,7 +410,7 @@ func checkC04(r *harness.Run) harness.Coverage {
 				handle(wk, buf, allStyles[:1])
 				atomic.AddInt64(&nearMisses, 1)
 			}
-			for _, a := range blindAlphabet {
+			for _, a := range editAlphabet {
 				// replace
 				for p := 0; p < n; p++ {
 					if toks[p] == a {
